@@ -655,6 +655,20 @@ func runWorldProp(c *runCtx, prop string) error {
 			wi++
 			continue
 		}
+		if prop == "C11" && wi >= len(directed) && r.Intn(6) == 0 { // a sixth of the C11 cases: tag references, with and without global rules
+			if err := genTagCaseG(c, r, wi, true); err != nil {
+				return err
+			}
+			wi++
+			continue
+		}
+		if prop == "C11" && wi >= len(directed) && r.Intn(8) == 0 { // an eighth of the C11 cases: file rules, with and without global rules
+			if err := c11FilesMono(c, r, wi); err != nil {
+				return err
+			}
+			wi++
+			continue
+		}
 		if prop == "C09" && wi >= len(directed) && r.Intn(3) == 0 { // a third of the C09 cases: code-review approvals
 			if err := genReviewCase(c, r, wi); err != nil {
 				return err
